@@ -1,6 +1,7 @@
 import Chewing.Props.C05
 import Chewing.Proofs.EditorModes
 import Chewing.Proofs.FullWidthTable
+import Chewing.Proofs.EditorLink
 /-!
 # C18 — English and full-width modes pass characters through faithfully
 
@@ -31,6 +32,9 @@ Theorems, all over the editor state-machine model (`Model/Editor.lean`), for EVE
   option), `toggle_preserves_buffer`, `setOptions_preserves_buffer`.
 * Chinese mode, the branches that share the tables: `chinese_shifted_key`, `chinese_shifted_letter`
   (same behaviour as English mode), `chinese_shifted_symbol` (special symbols are inserted into the buffer).
+* linked (section at the end): `buffer_bounded_along` — `EditorInv` (C01) + "buffer within the threshold in
+  `Entering`" is an invariant of key histories — and the whole-key theorems restated without a premise on the
+  buffer length (`capslock_toggles_lang_linked`, `shiftspace_toggles_form_linked`, `eng_key_inserts_linked`).
 * Outside the statement but recorded: `numlock_key_verbatim` (keypad keys ignore the character form),
   `eng_full_unprintable_bell` (F01 as repaired).
 -/
@@ -629,5 +633,177 @@ example : (toyEditor.run toyEnv [.key capsEv, .key shiftSpace, .key keyA]).map (
     = .ok [65345] := by decide
 
 end Examples
+
+/-! ## linked (round 2): "buffer within the threshold" is an invariant of key histories
+
+`capslock_toggles_lang`, `shiftspace_toggles_form` and `eng_key_inserts` assume that the buffer is within
+`auto_commit_threshold`; C05's `bounded_after_key` proves the bound after a key under the hypothesis that the
+conversion tiles the buffer (C03), which needs a valid composition (C04) and a word for every buffered
+syllable — C01's reachable-state invariant `EditorInv`.  Here the chain is closed
+(`Proofs/EditorLink.lean`): for every environment satisfying C01's `EnvOK`, `EditorInv` together with
+`Bounded` (in state `Entering` the buffer is within the threshold) is an invariant of every key history
+(`buffer_bounded_along`), and the three whole-key theorems are restated from it.  In the other states the
+bound can be exceeded until the state returns to `Entering` (a syllable typed under the simple engine opens
+its candidate list first; fuzzy input inserts while phonetic keys are pending): every transition into
+`Entering` is answered *absorb* and runs the auto-commit. -/
+
+section Linked
+variable {D L : Type} {env : Env D L} {G : D → Prop}
+
+/-- in state `Entering` the buffer is within `auto_commit_threshold` -/
+def Bounded (e : Editor D L) : Prop :=
+  e.state = .entering → e.shared.com.len ≤ e.shared.options.autoCommitThreshold
+
+/-- **C05's bound without the tiling premise** (`C05.bounded_after_key` / `bounded_after_absorb` /
+    `bounded_after_key_syllable` in one): for every environment satisfying C01's `EnvOK`, from every state
+    satisfying C01's invariant, in any of the four states, a key answered *absorb* or *commit* that ends in
+    `Entering` leaves the buffer within the threshold -/
+theorem bounded_after_key_linked (hE : C01.EnvOK env G) {e e' : Editor D L} (hi : C01.EditorInv env G e)
+    {ev : KeyEvent} {b : KB} (h : e.processKey env ev = .ok (e', b)) (he : e'.state = .entering)
+    (hb : b = .absorb ∨ b = .commit) : e'.shared.com.len ≤ e'.shared.options.autoCommitThreshold :=
+  Link.bounded_after_key_linked hE hi h he hb
+
+/-- **C05's `tryAutoCommit_total` without the tiling premise**: at every shared state satisfying C01's invariant
+    the auto-commit returns (no underflow, no over-removal, no panic of the engine) and re-establishes the bound -/
+theorem tryAutoCommit_total_linked (hE : C01.EnvOK env G) {sh : Shared D L} (h : C01.ShInv env G sh) :
+    ∃ sh2, Shared.tryAutoCommit env sh = .ok sh2 ∧ sh2.com.len ≤ sh2.options.autoCommitThreshold :=
+  Link.tryAutoCommit_total_linked hE h
+
+/-- no key changes `auto_commit_threshold` (only the two mode toggles change an option at all) -/
+theorem threshold_kept {e e' : Editor D L} {ev : KeyEvent} {b : KB} (h : e.processKey env ev = .ok (e', b)) :
+    e'.shared.options.autoCommitThreshold = e.shared.options.autoCommitThreshold := by
+  rcases options_change_only_by_toggle env h with h | ⟨_, _, h⟩ | ⟨_, _, _, _, h⟩ <;> rw [h]
+
+/-- **one key keeps the bound**: every result — *absorb* / *commit* (auto-commit or emptied buffer),
+    *ignore* (nothing changed), *bell* (buffer and threshold unchanged, handled in `Entering`) -/
+theorem bounded_step (hE : C01.EnvOK env G) {e e' : Editor D L} (hi : C01.EditorInv env G e) (hB : Bounded e)
+    {ev : KeyEvent} {b : KB} (h : e.processKey env ev = .ok (e', b)) : Bounded e' := by
+  intro he
+  cases b with
+  | absorb => exact Link.bounded_after_key_linked hE hi h he (Or.inl rfl)
+  | commit => exact Link.bounded_after_key_linked hE hi h he (Or.inr rfl)
+  | ignore =>
+    obtain ⟨hst, hcom, _, hopt, _⟩ := ignore_persistent env h
+    rw [hcom, hopt]
+    exact hB (hst ▸ he)
+  | bell =>
+    have hcom := bell_frame env h
+    have hthr := threshold_kept h
+    obtain ⟨sh, st, hd, h2⟩ := processKey_split env h
+    obtain ⟨hl, hst, _⟩ := tail_keeps env h2 (Or.inr rfl)
+    have hs : e.state = .entering := Link.entering_of_not_absorb hd (hst.symm.trans he) (by rw [hl]; decide)
+    rw [hcom, hthr]
+    exact hB hs
+
+/-- **`len ≤ auto_commit_threshold` (in `Entering`) is an invariant of key histories**, together with C01's
+    invariant: every key history runs to the end (no panic, no exhausted fuel) and ends in a state
+    satisfying both -/
+theorem buffer_bounded_along (hE : C01.EnvOK env G) (keys : List KeyEvent) :
+    ∀ e : Editor D L, C01.EditorInv env G e → Bounded e →
+      ∃ e', e.run env (keys.map .key) = .ok e' ∧ C01.EditorInv env G e' ∧ Bounded e' := by
+  induction keys with
+  | nil => intro e hi hB; exact ⟨e, rfl, hi, hB⟩
+  | cons ev keys ih =>
+    intro e hi hB
+    obtain ⟨e1, h1, hi1⟩ := C01.apply_ok hE hi (.key ev) trivial (fun h => h) trivial
+    have h1' : (e.processKey env ev).map (·.1) = .ok e1 := h1
+    obtain ⟨⟨e1', b⟩, hp, hx⟩ := map_ok h1'
+    have hx : e1' = e1 := hx
+    subst hx
+    obtain ⟨e2, h2, hi2, hB2⟩ := ih e1' hi1 (bounded_step hE hi hB hp)
+    exact ⟨e2, by simp only [List.map_cons, Editor.run]; rw [h1]; exact h2, hi2, hB2⟩
+
+/-- … in particular from the fresh editor (empty pre-edit) -/
+theorem buffer_bounded_fresh (hE : C01.EnvOK env G) (sh : Shared D L) (hg : G sh.dict) (hcom : sh.com = {})
+    (hcp : sh.options.lookupStrategy = .fuzzyPartialPrefix → C01.engStrategy sh.engine = .fuzzyPartialPrefix)
+    (hpp : 0 < sh.options.candidatesPerPage) (hsym : C01.SymWF sh.symSel) (keys : List KeyEvent) :
+    ∃ e', ({ shared := sh, state := .entering } : Editor D L).run env (keys.map .key) = .ok e' ∧
+      C01.EditorInv env G e' ∧ Bounded e' :=
+  buffer_bounded_along hE keys _ (C01.initial_inv sh hg hcom hcp hpp hsym)
+    (fun _ => by show sh.com.len ≤ _; rw [hcom]; exact Nat.zero_le _)
+
+/-- **Caps Lock, restated**: at every state reached in `Entering` along a key history (invariant + bound)
+    the whole key event toggles the language mode and nothing else — no premise on the buffer length -/
+theorem capslock_toggles_lang_linked {e : Editor D L} (hB : Bounded e) (hs : e.state = .entering) {ev : KeyEvent}
+    (hk : CapsLockKey ev) :
+    ∃ e', e.processKey env ev = .ok (e', .absorb) ∧ e'.state = .entering ∧
+      e'.shared.options = { e.shared.options with languageMode := flipLang e.shared.options.languageMode } ∧
+      e'.shared.com = e.shared.com ∧ e'.shared.commitBuf = [] := by
+  obtain ⟨e', h1, h2, h3, _, h5, h6⟩ := capslock_toggles_lang env e hk (hB hs)
+  exact ⟨e', h1, h2, h3, h6 (fun s hh => by rw [hs] at hh; cases hh), h5⟩
+
+/-- **Shift-Space, restated** -/
+theorem shiftspace_toggles_form_linked {e : Editor D L} (hB : Bounded e) (hs : e.state = .entering) {ev : KeyEvent}
+    (hk : ShiftSpaceKey ev) (ht : e.shared.options.enableFullwidthToggleKey = true) :
+    ∃ e', e.processKey env ev = .ok (e', .absorb) ∧ e'.state = .entering ∧
+      e'.shared.options = { e.shared.options with characterForm := flipForm e.shared.options.characterForm } ∧
+      e'.shared.com = e.shared.com ∧ e'.shared.commitBuf = [] :=
+  shiftspace_toggles_form env hs hk ht (hB hs)
+
+/-- **English mode, non-empty buffer, restated** for states satisfying the invariants: the key is total; its
+    state-machine part inserts exactly the one character at the cursor; below the threshold that is all
+    (*absorb*, nothing committed); AT the threshold the buffer overflows by one and the auto-commit pushes a
+    non-empty leading part out (*commit*), the rest — with the new character — stays in order and fits -/
+theorem eng_key_inserts_linked (hE : C01.EnvOK env G) {e : Editor D L} (hi : C01.EditorInv env G e) (hB : Bounded e)
+    {ev : KeyEvent} (hs : e.state = .entering) (hl : e.shared.options.languageMode = .english) (hk : AsciiKey ev)
+    (hne : e.shared.com.isEmpty = false) :
+    ∃ e' b, e.processKey env ev = .ok (e', b) ∧ e'.state = .entering ∧ e'.shared.options = e.shared.options ∧
+      e'.shared.com.len ≤ e'.shared.options.autoCommitThreshold ∧
+      ((e.shared.com.len < e.shared.options.autoCommitThreshold ∧ b = .absorb ∧ e'.shared.commitBuf = [] ∧
+        InsertedAt e.shared.com e'.shared.com [.chr (charOut e.shared.options.characterForm ev.unicode)]) ∨
+       (e.shared.com.len = e.shared.options.autoCommitThreshold ∧ b = .commit ∧
+        ∃ sh n, dispatch env e ev = .ok (sh, .entering) ∧
+          InsertedAt e.shared.com sh.com [.chr (charOut e.shared.options.characterForm ev.unicode)] ∧ 0 < n ∧
+          e'.shared.com.symbols = sh.com.symbols.drop n ∧ e'.shared.com.cursor = sh.com.cursor - n)) := by
+  have hcur : CursorInv e.shared.com := hi.sh.ced.cursorInv
+  rcases Nat.lt_or_ge e.shared.com.len e.shared.options.autoCommitThreshold with hlt | hge
+  · obtain ⟨e', h1, h2, h3, h4, h5⟩ := eng_key_inserts env hs hl hk hne hcur hlt
+    refine ⟨e', .absorb, h1, h2, h5, ?_, Or.inl ⟨hlt, rfl, h4, h3⟩⟩
+    exact Link.bounded_after_key_linked hE hi h1 h2 (Or.inl rfl)
+  · have heq : e.shared.com.len = e.shared.options.autoCommitThreshold := Nat.le_antisymm (hB hs) hge
+    obtain ⟨e1, h1, _⟩ := C01.apply_ok hE hi (.key ev) trivial (fun h => h) trivial
+    have h1' : (e.processKey env ev).map (·.1) = .ok e1 := h1
+    obtain ⟨⟨e', b⟩, hp, _⟩ := map_ok h1'
+    obtain ⟨sh, st, hd, h2⟩ := processKey_split env hp
+    obtain ⟨hst, hlast, hins, _, hopt, _⟩ := eng_key_inserts_dispatch env hs hl hk hne hd
+    subst hst
+    obtain ⟨hst', hbl, _⟩ := tail_spec env h2
+    obtain ⟨sh2, hac, hcom, hopt2, _, hlast2, _⟩ := tail_com env h2
+    have hcond : ((St.entering : St) == .entering && sh.last == .absorb) = true := by rw [hlast]; rfl
+    rw [if_pos hcond] at hac
+    have htl := Link.tilingAt_of_shInv hE (Link.dispatch_shInv hE hi ev hd)
+    obtain ⟨hbd, ho2, n, hsym, hcr⟩ := tryAutoCommit_bound_at env htl hac
+    have hlen1 : sh.com.symbols.length = e.shared.com.symbols.length + 1 := by
+      rw [hins.1]
+      have hc := hcur.2
+      simp only [List.length_append, List.length_take, List.length_drop, List.length_cons, List.length_nil]
+      have : e.shared.com.cursor ≤ e.shared.com.symbols.length := hc
+      omega
+    have hlen2 : sh2.com.symbols.length = sh.com.symbols.length - n := by rw [hsym, List.length_drop]
+    have hbd' : sh2.com.symbols.length ≤ sh.options.autoCommitThreshold := by rw [← ho2]; exact hbd
+    have heq' : e.shared.com.symbols.length = e.shared.options.autoCommitThreshold := heq
+    have hnpos : 0 < n := by rw [hopt] at hbd'; omega
+    have hb : b = .commit := by
+      rw [hbl, hlast2]
+      rcases tryAutoCommit_last env hac with hsame | hc
+      · exfalso; rw [hsame] at hlen2; omega
+      · exact hc
+    refine ⟨e', b, hp, hst', by rw [hopt2, ho2, hopt], by rw [hcom, hopt2]; exact hbd,
+      Or.inr ⟨heq, hb, sh, n, hd, hins, hnpos, by rw [hcom]; exact hsym, by rw [hcom]; exact hcr⟩⟩
+
+/-! ### non-vacuity: C01's toy environment satisfies `EnvOK`; its fresh editor satisfies both invariants -/
+
+example (keys : List KeyEvent) : ∃ e', (C01.stdEditor [3]).run C01.toyEnv (keys.map .key) = .ok e' ∧
+    C01.EditorInv C01.toyEnv (fun _ => True) e' ∧ Bounded e' :=
+  buffer_bounded_along C01.toyEnv_ok keys _ (C01.stdEditor_inv [3]) (fun _ => by decide)
+
+/-- the overflow case of `eng_key_inserts_linked` happens: threshold 1, buffer `[3]` in English mode, key `a` -/
+example : ∃ e e', ({ shared := { syl := 0, dict := [3], options := { autoCommitThreshold := 1 } } } : Editor (List Nat) Nat).run
+      C01.toyEnv [.key C01.keyJ, .key C01.keyJ, .key capsEv] = .ok e ∧ e.state = .entering ∧
+    e.shared.options.languageMode = .english ∧ e.shared.com.len = 1 ∧
+    e.processKey C01.toyEnv keyA = .ok (e', .commit) ∧ e'.shared.commitBuf = [3] ∧ e'.shared.com.symbols = [.chr 97] := by
+  refine ⟨_, _, rfl, ?_, ?_, ?_, rfl, ?_, ?_⟩ <;> decide
+
+end Linked
 
 end Chewing.C18
